@@ -32,7 +32,15 @@ class Template:
                                        # the rewrite of a selected node nested in another selected node is discarded
     acts_on_any_selected: bool = True  # the transformer acts on (and reports a change for) every selected tested node; False: it first
                                        # checks that the node is the construct it fixes, so only the site nodes count
-    entry_span: int = 1     # change entries reported per selected node, at consecutive lines from its start line
+    entry: tuple = ((0, 0),)   # change entries reported per selected node: (line offset, line offset at which the findings are
+                               # looked up), relative to the start line of the tested node
+    own: tuple = (0,)          # line offsets of the entries that are the site's own (may carry its finding)
+    ignores_results: bool = False   # the transformer never calls filter_by_result / node_is_selected
+    only_last: bool = False    # the transformer keeps one (node, replacement) per module: only the last selected node is fixed
+    no_indent: bool = False    # the site must sit at module level (the transformer declines nested definitions)
+    block: tuple = ()          # a multi-line site (lines, unindented, {i} = site number) instead of `stmt`
+    locate: object = None      # (module, i) -> (reported node, tested node) for block sites
+    check: object = None       # (text after the run, i) -> True when site i was rewritten (default: the site text is gone)
     extra: dict = field(default_factory=dict)
 
 
@@ -47,7 +55,7 @@ TEMPLATES = [
     Template("sonar:python/secure-tempfile", "sonar", "python:S5445", "import tempfile\n", "v{i} = tempfile.mktemp()", "value",
              tested="stmt", tested_kind="KStmtLine", ovr="FSameLineStmt", pad_ok=False),
     Template("sonar:python/fix-assert-tuple", "sonar", "python:S5905", "", "assert (m{i}, 1)", "test", tested="test",
-             tested_kind="KTuple", pad_ok=False, entry_span=2),
+             tested_kind="KTuple", pad_ok=False, entry=((0, 0), (1, 1))),
     Template("sonar:python/invert-boolean-check", "sonar", "python:S1940", "", "v{i} = not a{i} == b", "value", tested_kind="KOther"),
     Template("sonar:python/numpy-nan-equality", "sonar", "python:S6725", "import numpy as np\n", "v{i} = a{i} == np.nan", "value",
              tested_kind="KOther"),
@@ -84,24 +92,137 @@ TEMPLATES = [
     Template("defectdojo:python/django-secure-set-cookie", "defectdojo", DD_COOKIE, "", 'v{i} = resp.set_cookie("k{i}", "v")', "value"),
 ]
 
+# ---- sites that are whole statements / blocks, located by a marker ------------------------------------------------------
+import libcst.matchers as m
+
+
+def _fn(module, name):
+    return [f for f in m.findall(module, m.FunctionDef()) if f.name.value == name][0]
+
+
+def _cls(module, name):
+    return [c for c in m.findall(module, m.ClassDef()) if c.name.value == name][0]
+
+
+def _loc_csrf(module, i):
+    d = _fn(module, f"view{i}").decorators[0]
+    return d, d
+
+
+def _loc_receiver(module, i):
+    d = _fn(module, f"h{i}").decorators[1]
+    return d, d
+
+
+def _loc_expr_stmt(module, i):
+    for st in m.findall(module, m.SimpleStatementLine(body=[m.Expr(m.Call())])):
+        c = st.body[0].value
+        if c.args and isinstance(c.args[0].value, cst.SimpleString) and c.args[0].value.value == f'"m{i}"':
+            return c, st
+    raise KeyError(i)
+
+
+def _loc_pytest(module, i):
+    for w in m.findall(module, m.With()):
+        last = w.body.body[-1]
+        if isinstance(last, cst.SimpleStatementLine) and isinstance(last.body[0], cst.Assert) and \
+                isinstance(last.body[0].test, cst.Name) and last.body[0].test.value == f"x{i}":
+            return last, last
+    raise KeyError(i)
+
+
+def _loc_return_value(module, i):
+    r = m.findall(_fn(module, f"view{i}"), m.Return())[0]
+    return r.value, r.value
+
+
+def _loc_funcdef(module, i):
+    f = _fn(module, f"meth{i}")
+    return f, f
+
+
+def _loc_classdef(module, i):
+    c = _cls(module, f"M{i}")
+    return c, c
+
+
+def _loc_break(module, i):
+    for st in m.findall(module, m.If()):
+        if isinstance(st.test, cst.Name) and st.test.value == f"cond{i}":
+            b = m.findall(st, m.Break())[0]
+            return b, b
+    raise KeyError(i)
+
+
+def _loc_execute(module, i):
+    for c in m.findall(module, m.Call(func=m.Attribute(attr=m.Name("execute")))):
+        if f"name{i}" in cst.Module([]).code_for_node(c):
+            return c, c
+    raise KeyError(i)
+
+
+def _loc_graphql(module, i):
+    for c in m.findall(module, m.Call()):
+        if f'"/g{i}"' in cst.Module([]).code_for_node(c) and "as_view" in cst.Module([]).code_for_node(c.func):
+            return c, c
+    raise KeyError(i)
+
+
+SQL_HEADER = "import sqlite3\nconn = sqlite3.connect('x')\ncur = conn.cursor()\n"
+SQL_RULE = "python.lang.security.audit.formatted-sql-query.formatted-sql-query"
+BLOCK_TEMPLATES = [
+    Template("semgrep:python/no-csrf-exempt", "semgrep", "python.django.security.audit.csrf-exempt.no-csrf-exempt",
+             "from django.views.decorators.csrf import csrf_exempt\n", "", "", tested_kind="KOther", pad_ok=False,
+             block=("@csrf_exempt", "def view{i}(request):", "    return {i}"), locate=_loc_csrf, ignores_results=True,
+             check=lambda after, i: f"@csrf_exempt\ndef view{i}(" not in after.replace("    ", "")),
+    Template("semgrep:python/nan-injection", "semgrep", "python.django.security.nan-injection.nan-injection", "", "v{i} = float(tid{i})", "value",
+             pad_ok=False, entry=((0, 0), (1, 0), (2, 0), (3, 0)), own=(0, 1, 2, 3), acts_on_any_selected=False,
+             check=lambda after, i: f'if tid{i}.lower() == "nan"' in after),
+    Template("semgrep:python/sql-parameterization", "semgrep", SQL_RULE, SQL_HEADER, "", "", pad_ok=False, acts_on_any_selected=False,
+             block=("cur.execute(\"SELECT * FROM t WHERE name ='\" + name{i} + \"'\")",), locate=_loc_execute, quick=False),
+    Template("sonar:python/sql-parameterization", "sonar", "pythonsecurity:S3649", SQL_HEADER, "", "", pad_ok=False, acts_on_any_selected=False,
+             block=("cur.execute(\"SELECT * FROM t WHERE name ='\" + name{i} + \"'\")",), locate=_loc_execute, quick=False),
+    Template("sonar:python/literal-or-new-object-identity", "sonar", "python:S5796", "", "v{i} = a{i} is [1]", "operator", tested="operator",
+             tested_kind="KOther", acts_on_any_selected=False),
+    Template("sonar:python/django-receiver-on-top", "sonar", "python:S6552", "from django.dispatch import receiver\n", "", "",
+             tested_kind="KOther", pad_ok=False, acts_on_any_selected=False,
+             block=("@deco{i}", "@receiver(sig{i})", "def h{i}(sender):", "    pass"), locate=_loc_receiver, entry=((0, 0), (-1, -1)),
+             check=lambda after, i: f"@receiver(sig{i})\n@deco{i}" in after.replace("    ", ""), quick=False),
+    Template("sonar:python/exception-without-raise", "sonar", "python:S3984", "", "", "", tested_kind="KStmtLine", pad_ok=False,
+             acts_on_any_selected=False, block=('ValueError("m{i}")',), locate=_loc_expr_stmt,
+             check=lambda after, i: f'raise ValueError("m{i}")' in after),
+    Template("sonar:python/remove-assertion-in-pytest-raises", "sonar", "python:S5915", "import pytest\n", "", "", tested_kind="KStmtLine",
+             pad_ok=False, acts_on_any_selected=False,
+             block=("with pytest.raises(ZeroDivisionError):", "    x{i} = 1 / 0", "    assert x{i}"), locate=_loc_pytest, quick=False,
+             entry=((-2, -2),)),      # the change is reported for the `with` statement, two lines above the reported assert
+    Template("sonar:python/flask-json-response-type", "sonar", "pythonsecurity:S5131",
+             "import json\nfrom flask import Flask, make_response\napp = Flask(__name__)\n", "", "", tested_kind="KCall", pad_ok=False,
+             acts_on_any_selected=False,
+             block=('@app.route("/r{i}")', "def view{i}():", '    return make_response(json.dumps({{"k": {i}}}))'), locate=_loc_return_value,
+             quick=False, only_last=True),
+    Template("sonar:python/django-json-response-type", "sonar", "pythonsecurity:S5131", "import json\nfrom django.http import HttpResponse\n",
+             'v{i} = HttpResponse(json.dumps({{"k": {i}}}))', "value", quick=False),
+    Template("sonar:python/fix-missing-self-or-cls", "sonar", "python:S5719", "", "", "", tested_kind="KOther", pad_ok=False,
+             acts_on_any_selected=False, block=("class C{i}:", "    def meth{i}():", "        pass"), locate=_loc_funcdef, extra={"funcdef": True},
+             no_indent=True,
+             check=lambda after, i: f"def meth{i}(self):" in after),
+    Template("sonar:python/django-model-without-dunder-str", "sonar", "python:S6554", "from django.db import models\n", "", "",
+             tested_kind="KClassDef", pad_ok=False, block=("class M{i}(models.Model):", "    name{i} = models.CharField(max_length=9)"),
+             locate=_loc_classdef, ignores_results=True, acts_on_any_selected=False, quick=False,
+             check=lambda after, i: __import__("re").search(rf"name{i} = models\.CharField\(max_length=9\)\n\s*\n\s*def __str__", after) is not None),
+    Template("sonar:python/break-or-continue-out-of-loop", "sonar", "python:S1716", "", "", "", tested_kind="KOther", pad_ok=False,
+             block=("if cond{i}:", "    print({i})", "    break"), locate=_loc_break, ignores_results=True, acts_on_any_selected=False, quick=False,
+             check=lambda after, i: f"print({i})\nbreak" not in after.replace("    ", "")),
+    Template("sonar:python/disable-graphql-introspection", "sonar", "python:S6786",
+             "from graphql_server.flask import GraphQLView\nfrom flask import Flask\napp = Flask(__name__)\n", "", "", pad_ok=False,
+             acts_on_any_selected=False,
+             block=('app.add_url_rule("/g{i}", view_func=GraphQLView.as_view("/g{i}", schema=schema{i}))',), locate=_loc_graphql, quick=False),
+]
+TEMPLATES = TEMPLATES + BLOCK_TEMPLATES
+
 # SAST codemods of the registry that have NO end-to-end template here, and why.  A registered SAST codemod that is neither in
 # TEMPLATES nor here is reported as lost coverage (mismatch); so is a template whose id is not registered.
-NOT_COVERED = {
-    "semgrep:python/no-csrf-exempt": "acts on a decorator (own selection code, no node_is_selected); needs a Django view layout",
-    "semgrep:python/sql-parameterization": "data-flow driven rewrite over several statements; site = a query built from pieces",
-    "sonar:python/sql-parameterization": "same transformer",
-    "semgrep:python/nan-injection": "own selection and attachment code over an expression inside float(...)",
-    "sonar:python/literal-or-new-object-identity": "tests the comparison OPERATOR node",
-    "sonar:python/django-receiver-on-top": "decorator reordering; site = a decorated function",
-    "sonar:python/exception-without-raise": "the statement text survives inside the fix (`raise <stmt>`): needs a structural observation",
-    "sonar:python/remove-assertion-in-pytest-raises": "multi-statement `with pytest.raises` block",
-    "sonar:python/flask-json-response-type": "needs a Flask view returning json.dumps(...)",
-    "sonar:python/django-json-response-type": "needs a Django view returning HttpResponse(json.dumps(...))",
-    "sonar:python/fix-missing-self-or-cls": "tests a FunctionDef through node_position's special case",
-    "sonar:python/django-model-without-dunder-str": "class-level site",
-    "sonar:python/break-or-continue-out-of-loop": "statement-level site without a marker",
-    "sonar:python/disable-graphql-introspection": "needs a graphql view construction",
-}
+NOT_COVERED: dict = {}
 
 RCLASS = {"sonar": "RSonar", "semgrep": "RBase", "defectdojo": "RDefectDojo"}
 FOREIGN_RULE = {"sonar": "python:S9999", "semgrep": "python.lang.foreign.other-rule.other-rule", "defectdojo": "foreign.rule.other"}
@@ -117,12 +238,21 @@ def gen_program(rng: random.Random, t: Template, n: int, same_line_pair=False, m
     stmts = []
     i = 1
     while i <= n:
-        indent = rng.choice([0, 0, 4, 8])
+        indent = 0 if t.no_indent else rng.choice([0, 0, 4, 8])
         if indent == 4:
             lines.append(f"def g{i}(x):\n")
         elif indent == 8:
             lines.append(f"class K{i}:\n    def m(self, x):\n")
         pre = " " * indent
+        if t.block:
+            text = "".join(pre + l.format(i=i) + "\n" for l in t.block)
+            stmts.append(text)
+            lines.append(text)
+            if indent:
+                lines.append(pre + "return x\n")
+            lines.append("\n" * max(t.min_gap, rng.randint(0, 2)))
+            i += 1
+            continue
         s = t.stmt.format(i=i)
         if t.ovr == "FFuzzyCall" and " = " in s and (rng.random() < 0.3 if wrap is None else wrap):
             # the reported call as the argument of another call on the same line: the location lies inside both
@@ -165,6 +295,8 @@ def _select(node, sel):
         return node.test
     if sel == "func":
         return node.value.func
+    if sel == "operator":
+        return node.value.comparisons[0].operator
     if sel.startswith("kw:"):
         for a in node.value.args:
             if a.keyword is not None and a.keyword.value == sel[3:]:
@@ -227,7 +359,18 @@ def analyse(src: str, t: Template, n: int):
 
     v = V()
     w.module.visit(v)
+    def fspan(f):
+        # UtilsMixin.node_position for a FunctionDef: from its start to one past the end of its parameters
+        pe = pos[f.params].end
+        return (pos[f].start.line, pos[f].start.column, pe.line, pe.column + 1)
+
     for i in range(1, n + 1):
+        if t.locate is not None:
+            rep_, tst = t.locate(w.module, i)
+            sp = fspan if t.extra.get("funcdef") else span
+            sites[i] = {"reported": sp(rep_), "tested": sp(tst), "tested_node": tst, "line": sp(tst)[0],
+                        "reported_is_tuple": False, "wrapped": False}
+            continue
         small, line = small_of[i]
         wrapped = False
         if isinstance(small, cst.Assign) and isinstance(small.value, cst.Call) and isinstance(small.value.func, cst.Name) and \
@@ -238,7 +381,9 @@ def analyse(src: str, t: Template, n: int):
         tst = line if t.tested == "stmt" else _select(small, t.tested)
         sites[i] = {"reported": span(rep), "tested": span(tst), "tested_node": tst, "line": span(tst)[0],
                     "reported_is_tuple": isinstance(rep, cst.Tuple), "wrapped": wrapped}
-    pool = {"KCall": v.calls, "KStmtLine": v.stmts, "KTuple": v.tuples, "KOther": v.others}[t.tested_kind]
+    pool = {"KCall": v.calls, "KStmtLine": v.stmts, "KTuple": v.tuples, "KOther": v.others, "KClassDef": v.classes}[t.tested_kind]
+    if t.locate is not None or not t.acts_on_any_selected or t.site == "operator":
+        pool = [s_["tested_node"] for s_ in sites.values()]
     tested = []
     site_by_node = {id(s["tested_node"]): i for i, s in sites.items()}
     nxt = 100
@@ -250,7 +395,7 @@ def analyse(src: str, t: Template, n: int):
             nxt += 1
             tested.append((nxt, t.tested_kind, span(nd)))
         else:
-            tested.append((i, t.tested_kind, span(nd)))
+            tested.append((i, t.tested_kind, sites[i]["tested"]))
     cands, k = [], 1000
     for kind, nodes in (("KCall", v.calls), ("KAssign", v.assigns), ("KClassDef", v.classes)):
         for nd in nodes:
@@ -258,6 +403,10 @@ def analyse(src: str, t: Template, n: int):
             cands.append((k, kind, span(nd)))
     if t.tested_kind not in ("KCall", "KAssign", "KClassDef"):
         cands = cands + [(i, kd, s) for (i, kd, s) in tested]
+    if t.locate is not None and t.tested_kind not in ("KCall", "KAssign", "KClassDef"):
+        # a transformer that tests one particular kind of node (a decorator, a `break`, a FunctionDef signature ...): the span
+        # discipline that matters is the one among the nodes it tests
+        cands = list(tested)
     return sites, tested, cands
 
 
